@@ -1,41 +1,387 @@
 /-
-  Proofs/C15Window.lean — helper lemmas for Props/C15_Window.lean.
+  Proofs/C15Window.lean — helper lemmas for Props/C15_Window.lean: Python slicing with in-range indices,
+  bytes ↔ bits slicing, and each source setter against `windowSpec`.
 -/
-import BitstringModel.Model.C15
-import BitstringModel.Proofs.Basic
+import BitstringModel.Proofs.C15
 import Mathlib.Data.List.Basic
-
+set_option linter.unusedSimpArgs false
+set_option linter.unusedTactic false
+set_option linter.unreachableTactic false
 namespace BM.C15
 open BM
+
+theorem pySlice_nn {α} (l : List α) (a b : Nat) (hab : a ≤ b) (hb : b ≤ l.length) :
+    pySlice l (some (a : Int)) (some (b : Int)) = (l.drop a).take (b - a) := by
+  unfold pySlice Py.sliceIndices
+  simp only [show ¬ ((1 : Int) < 0) by omega, if_false]
+  have h1 : ¬ ((a : Int) < 0) := by omega
+  have h2 : ¬ ((b : Int) < 0) := by omega
+  simp only [h1, h2, if_false]
+  have e1 : min (a : Int) (l.length : Int) = a := by omega
+  have e2 : min (b : Int) (l.length : Int) = b := by omega
+  rw [e1, e2]
+  have e3 : ((b : Int) - (a : Int)).toNat = b - a := by omega
+  simp only [Int.toNat_natCast, e3]
+
+theorem pySlice_end {α} (l : List α) (a : Nat) (ha : a ≤ l.length) :
+    pySlice l (some (a : Int)) none = l.drop a := by
+  unfold pySlice Py.sliceIndices
+  simp only [show ¬ ((1 : Int) < 0) by omega, if_false]
+  have h1 : ¬ ((a : Int) < 0) := by omega
+  simp only [h1, if_false]
+  have e1 : min (a : Int) (l.length : Int) = a := by omega
+  rw [e1]
+  simp only [Int.toNat_natCast]
+  apply List.take_of_length_le
+  simp
+
+/-- An offset past the end gives an empty slice. -/
+theorem pySlice_beyond {α} (l : List α) (a : Nat) (b : Int) (ha : l.length ≤ a) :
+    pySlice l (some (a : Int)) (some b) = [] := by
+  unfold pySlice Py.sliceIndices
+  simp only [show ¬ ((1 : Int) < 0) by omega, if_false]
+  have h1 : ¬ ((a : Int) < 0) := by omega
+  simp only [h1, if_false]
+  have e1 : min (a : Int) (l.length : Int) = l.length := by omega
+  rw [e1]
+  simp
+
+theorem pySlice_length_le {α} (l : List α) (a b : Option Int) : (pySlice l a b).length ≤ l.length := by
+  unfold pySlice; simp
 
 theorem window_ok_iff_aux (src : Bits) (off len : Option Int) (b : Bits) :
     windowSpec src off len = .ok b ↔
       (0 ≤ off.getD 0 ∧ 0 ≤ len.getD ((src.length : Int) - off.getD 0) ∧
         off.getD 0 + len.getD ((src.length : Int) - off.getD 0) ≤ src.length ∧
         b = (src.drop (off.getD 0).toNat).take (len.getD ((src.length : Int) - off.getD 0)).toNat) := by
-  sorry
+  unfold windowSpec
+  simp only
+  by_cases h : 0 ≤ off.getD 0 ∧ 0 ≤ len.getD ((src.length : Int) - off.getD 0) ∧
+      off.getD 0 + len.getD ((src.length : Int) - off.getD 0) ≤ src.length
+  · rw [if_pos h]
+    exact ⟨fun e => ⟨h.1, h.2.1, h.2.2, by injection e with e; exact e.symm⟩, fun e => by rw [e.2.2.2]⟩
+  · rw [if_neg h]
+    exact ⟨fun e => (by cases e), fun e => absurd ⟨e.1, e.2.1, e.2.2.1⟩ h⟩
 
 theorem window_length_aux (src : Bits) (off len : Option Int) (b : Bits) (h : windowSpec src off len = .ok b) :
     (b.length : Int) = len.getD ((src.length : Int) - off.getD 0) := by
-  sorry
+  obtain ⟨h1, h2, h3, rfl⟩ := (window_ok_iff_aux src off len b).1 h
+  simp only [List.length_take, List.length_drop]
+  omega
+
+/-- The specification for natural `off`, `len` that fit. -/
+theorem windowSpec_fit (src : Bits) (off len : Option Int) (o l : Nat)
+    (ho : off.getD 0 = (o : Int)) (hl : len.getD ((src.length : Int) - (o : Int)) = (l : Int)) (hfit : o + l ≤ src.length) :
+    windowSpec src off len = .ok ((src.drop o).take l) := by
+  unfold windowSpec
+  simp only [ho, hl]
+  rw [if_pos ⟨by omega, by omega, by omega⟩]
+  simp
+
+theorem windowSpec_bad (src : Bits) (off len : Option Int)
+    (h : ¬ (0 ≤ off.getD 0 ∧ 0 ≤ len.getD ((src.length : Int) - off.getD 0) ∧
+      off.getD 0 + len.getD ((src.length : Int) - off.getD 0) ≤ src.length)) :
+    windowSpec src off len = .error .value := by
+  unfold windowSpec; simp only; rw [if_neg h]
+
+theorem winNeg_false (off len : Option Int) (h : winNegative off len = false) :
+    0 ≤ off.getD 0 ∧ 0 ≤ len.getD 0 := by
+  unfold winNegative at h
+  simp only [Bool.or_eq_false_iff, decide_eq_false_iff_not] at h
+  omega
 
 theorem bitarrayWin_eq_partial_aux (ba : Bits) (off len : Option Int) (hneg : winNegative off len = false) :
     bitarrayWin ba off len = windowSpec ba off len := by
-  sorry
+  obtain ⟨h0, hl0⟩ := winNeg_false off len hneg
+  obtain ⟨o, ho⟩ := Int.eq_ofNat_of_zero_le h0
+  unfold bitarrayWin
+  simp only [ho]
+  by_cases hgt : (o : Int) > ba.length
+  · rw [if_pos hgt]
+    rw [windowSpec_bad]
+    rw [ho]
+    cases len with
+    | none => simp; omega
+    | some l => simp at hl0 ⊢; omega
+  · rw [if_neg hgt]
+    have hole : o ≤ ba.length := by omega
+    cases len with
+    | none =>
+      simp only
+      rw [pySlice_end _ _ hole]
+      rw [windowSpec_fit ba off none o (ba.length - o) ho (by simp; omega) (by omega)]
+      congr 1
+      symm; apply List.take_of_length_le; simp
+    | some l =>
+      simp only [Option.getD_some] at hl0
+      obtain ⟨k, rfl⟩ := Int.eq_ofNat_of_zero_le hl0
+      simp only
+      by_cases hfit : (o : Int) + (k : Int) > ba.length
+      · rw [if_pos hfit, windowSpec_bad]
+        rw [ho]; simp; omega
+      · rw [if_neg hfit]
+        have : ((o : Int) + (k : Int)) = ((o + k : Nat) : Int) := by push_cast; rfl
+        rw [this, pySlice_nn _ _ _ (by omega) (by omega)]
+        rw [windowSpec_fit ba off (some (k : Int)) o k ho (by simp) (by omega)]
+        congr 2; omega
+
+theorem pySlice_ge {α} (l : List α) (a b : Nat) (hab : a ≤ b) (ha : a ≤ l.length) :
+    pySlice l (some (a : Int)) (some (b : Int)) = (l.drop a).take (b - a) := by
+  by_cases hb : b ≤ l.length
+  · exact pySlice_nn l a b hab hb
+  · unfold pySlice Py.sliceIndices
+    simp only [show ¬ ((1 : Int) < 0) by omega, if_false]
+    have h1 : ¬ ((a : Int) < 0) := by omega
+    have h2 : ¬ ((b : Int) < 0) := by omega
+    simp only [h1, h2, if_false]
+    have e1 : min (a : Int) (l.length : Int) = a := by omega
+    have e2 : min (b : Int) (l.length : Int) = l.length := by omega
+    rw [e1, e2]
+    have e3 : ((l.length : Int) - (a : Int)).toNat = l.length - a := by omega
+    simp only [Int.toNat_natCast, e3]
+    rw [List.take_of_length_le (by simp), List.take_of_length_le (by simp; omega)]
+
+theorem fromBytes_cons (x : Nat) (t : List Nat) : fromBytes (x :: t) = natToBits 8 x ++ fromBytes t := by
+  simp [fromBytes]
+
+theorem fromBytes_drop (d : List Nat) (a : Nat) : fromBytes (d.drop a) = (fromBytes d).drop (8 * a) := by
+  induction d generalizing a with
+  | nil => simp [fromBytes]
+  | cons x t ih =>
+    cases a with
+    | zero => simp
+    | succ a =>
+      rw [List.drop_succ_cons, ih, fromBytes_cons]
+      have : 8 * (a + 1) = (natToBits 8 x).length + 8 * a := by simp; omega
+      rw [this, List.drop_append]
+      simp
+
+theorem fromBytes_take (d : List Nat) (k : Nat) : fromBytes (d.take k) = (fromBytes d).take (8 * k) := by
+  induction d generalizing k with
+  | nil => simp [fromBytes]
+  | cons x t ih =>
+    cases k with
+    | zero => simp [fromBytes]
+    | succ k =>
+      rw [List.take_succ_cons, fromBytes_cons, fromBytes_cons, ih]
+      have : 8 * (k + 1) = (natToBits 8 x).length + 8 * k := by simp; omega
+      rw [this, List.take_append]
+      simp
+      exact (List.take_of_length_le (by simp)).symm
+
+/-- The general branch of `_setbytes_with_truncation` (at least one of offset / length given). -/
+def bytesBody (data : List Nat) (off len : Option Int) : Except Err Bits :=
+  match len with
+  | none => .ok (pySlice (fromBytes data) (some (off.getD 0))
+      (some (off.getD 0 + ((data.length : Int) * 8 - off.getD 0))))
+  | some length =>
+    if length + off.getD 0 > (data.length : Int) * 8 then .error .value
+    else .ok (pySlice (fromBytes data) (some (off.getD 0)) (some (off.getD 0 + length)))
+
+theorem bytesWin_unfold (data : List Nat) (off len : Option Int) (h : off ≠ none ∨ len ≠ none) :
+    bytesWin data off len = bytesBody data off len := by
+  cases off <;> cases len <;> simp at h <;> rfl
+
+theorem bytesBody_eq (data : List Nat) (off len : Option Int) (o : Nat) (ho : off.getD 0 = (o : Int))
+    (hl0 : 0 ≤ len.getD 0) (hb : len = none → o ≤ (fromBytes data).length) :
+    bytesBody data off len = windowSpec (fromBytes data) off len := by
+  have hn : (fromBytes data).length = 8 * data.length := fromBytes_length data
+  have hnI : ((data.length : Int) * 8) = ((fromBytes data).length : Int) := by rw [hn]; push_cast; ring
+  unfold bytesBody
+  rw [ho, hnI]
+  cases len with
+  | none =>
+    have hole := hb rfl
+    simp only
+    have : ((o : Int) + (((fromBytes data).length : Int) - (o : Int))) = (((fromBytes data).length : Nat) : Int) := by omega
+    rw [this, pySlice_nn _ _ _ hole (le_refl _)]
+    rw [windowSpec_fit _ off none o ((fromBytes data).length - o) ho (by simp; omega) (by omega)]
+  | some l =>
+    simp only [Option.getD_some] at hl0
+    obtain ⟨k, rfl⟩ := Int.eq_ofNat_of_zero_le hl0
+    simp only
+    by_cases hfit : (k : Int) + (o : Int) > ((fromBytes data).length : Int)
+    · rw [if_pos hfit, windowSpec_bad]
+      rw [ho]; simp; omega
+    · rw [if_neg hfit]
+      have : ((o : Int) + (k : Int)) = ((o + k : Nat) : Int) := by push_cast; rfl
+      rw [this, pySlice_nn _ _ _ (by omega) (by omega)]
+      rw [windowSpec_fit _ off (some (k : Int)) o k ho (by simp) (by omega)]
+      congr 2; omega
+
+theorem winBeyond_false (n : Nat) (off : Option Int) (o : Nat) (ho : off.getD 0 = (o : Int))
+    (h : winBeyond n off = false) : o ≤ n := by
+  unfold winBeyond at h
+  simp only [decide_eq_false_iff_not, ho] at h
+  omega
+
+theorem windowSpec_all (src : Bits) : windowSpec src none none = .ok src := by
+  rw [windowSpec_fit src none none 0 src.length (by simp) (by simp) (by omega)]
+  simp
 
 theorem bytesWin_eq_partial_aux (data : List Nat) (off len : Option Int) (hneg : winNegative off len = false)
     (hbey : len = none → winBeyond (fromBytes data).length off = false) :
     bytesWin data off len = windowSpec (fromBytes data) off len := by
-  sorry
+  obtain ⟨h0, hl0⟩ := winNeg_false off len hneg
+  obtain ⟨o, ho⟩ := Int.eq_ofNat_of_zero_le h0
+  by_cases hnn : off = none ∧ len = none
+  · obtain ⟨rfl, rfl⟩ := hnn
+    rw [windowSpec_all]; rfl
+  · rw [bytesWin_unfold data off len (by
+      by_cases h1 : off = none
+      · exact Or.inr (fun h2 => hnn ⟨h1, h2⟩)
+      · exact Or.inl h1)]
+    exact bytesBody_eq data off len o ho hl0 (fun hl => winBeyond_false _ off o ho (hbey hl))
+
+/-- The general branch of the BytesIO case of `_setauto`, with `length` already defaulted. -/
+def bytesioBody (data : List Nat) (offset0 length : Int) : Except Err Bits :=
+  let n : Int := data.length * 8
+  let byteoffset := offset0 / 8
+  let offset := offset0 % 8
+  let bytelength := (length + byteoffset * 8 + offset + 7) / 8 - byteoffset
+  if length + byteoffset * 8 + offset > n then .error .value
+  else
+    let chunk := pySlice data (some byteoffset) (some (byteoffset + bytelength))
+    .ok (pySlice (fromBytes chunk) (some offset) (some (offset + length)))
+
+theorem bytesioWin_unfold (data : List Nat) (off len : Option Int) (h : off ≠ none ∨ len ≠ none) :
+    bytesioWin data off len =
+      bytesioBody data (off.getD 0) (match len with | none => (data.length : Int) * 8 - off.getD 0 | some l => l) := by
+  cases off <;> cases len <;> simp at h <;> rfl
+
+/-- The byte-offset / bit-offset arithmetic: for `o + L ≤ 8·|data|` the chunk of bytes that is read and the
+    bit slice taken from it are exactly bits `o … o+L` of the data. -/
+theorem bytesioBody_fit (data : List Nat) (o L : Nat) (hfit : o + L ≤ 8 * data.length) :
+    bytesioBody data (o : Int) (L : Int) = .ok (((fromBytes data).drop o).take L) := by
+  unfold bytesioBody
+  simp only
+  have hbo : ((o : Int) / 8) = ((o / 8 : Nat) : Int) := by norm_cast
+  have hof : ((o : Int) % 8) = ((o % 8 : Nat) : Int) := by norm_cast
+  rw [hbo, hof]
+  have hsum : ((L : Int) + ((o / 8 : Nat) : Int) * 8 + ((o % 8 : Nat) : Int)) = ((L + o : Nat) : Int) := by
+    push_cast; omega
+  rw [hsum]
+  rw [if_neg (by push_cast; omega)]
+  have he : ((((L + o : Nat) : Int) + 7) / 8) = (((L + o + 7) / 8 : Nat) : Int) := by norm_cast
+  rw [he]
+  have hbl : (((o / 8 : Nat) : Int) + ((((L + o + 7) / 8 : Nat) : Int) - ((o / 8 : Nat) : Int)))
+      = (((L + o + 7) / 8 : Nat) : Int) := by omega
+  rw [hbl]
+  have h1 : o / 8 ≤ (L + o + 7) / 8 := by omega
+  have h2 : (L + o + 7) / 8 ≤ data.length := by omega
+  rw [pySlice_nn data _ _ h1 h2]
+  have h3 : (((o % 8 : Nat) : Int) + (L : Int)) = ((o % 8 + L : Nat) : Int) := by push_cast; rfl
+  rw [h3]
+  have hlenB := fromBytes_length data
+  have hchunk : (fromBytes ((data.drop (o / 8)).take ((L + o + 7) / 8 - o / 8))).length
+      = 8 * ((L + o + 7) / 8 - o / 8) := by
+    rw [fromBytes_length]; simp; omega
+  rw [pySlice_nn _ _ _ (by omega) (by rw [hchunk]; omega)]
+  rw [fromBytes_take, fromBytes_drop]
+  rw [List.drop_take, List.drop_drop, List.take_take]
+  have e1 : 8 * (o / 8) + o % 8 = o := by omega
+  have e2 : min (o % 8 + L - o % 8) (8 * ((L + o + 7) / 8 - o / 8) - o % 8) = L := by omega
+  rw [e1, e2]
+
+theorem bytesioBody_bad (data : List Nat) (o : Nat) (L : Int) (h : (o : Int) + L > 8 * data.length) :
+    bytesioBody data (o : Int) L = .error .value := by
+  unfold bytesioBody
+  simp only
+  have : L + (o : Int) / 8 * 8 + (o : Int) % 8 = L + o := by omega
+  rw [this, if_pos (by omega)]
 
 theorem bytesioWin_eq_partial_aux (data : List Nat) (off len : Option Int) (hneg : winNegative off len = false)
     (hbey : len = none → winBeyond (fromBytes data).length off = false) :
     bytesioWin data off len = windowSpec (fromBytes data) off len := by
-  sorry
+  obtain ⟨h0, hl0⟩ := winNeg_false off len hneg
+  obtain ⟨o, ho⟩ := Int.eq_ofNat_of_zero_le h0
+  have hn : (fromBytes data).length = 8 * data.length := fromBytes_length data
+  by_cases hnn : off = none ∧ len = none
+  · obtain ⟨rfl, rfl⟩ := hnn
+    rw [windowSpec_all]; rfl
+  · rw [bytesioWin_unfold data off len (by
+      by_cases h1 : off = none
+      · exact Or.inr (fun h2 => hnn ⟨h1, h2⟩)
+      · exact Or.inl h1)]
+    rw [ho]
+    cases len with
+    | none =>
+      have hole := winBeyond_false _ off o ho (hbey rfl)
+      simp only
+      have : ((data.length : Int) * 8 - (o : Int)) = ((8 * data.length - o : Nat) : Int) := by omega
+      rw [this, bytesioBody_fit data o _ (by omega)]
+      rw [windowSpec_fit _ off none o (8 * data.length - o) ho (by simp; omega) (by omega)]
+    | some l =>
+      simp only [Option.getD_some] at hl0
+      obtain ⟨k, rfl⟩ := Int.eq_ofNat_of_zero_le hl0
+      simp only
+      by_cases hfit : o + k ≤ 8 * data.length
+      · rw [bytesioBody_fit data o k hfit]
+        rw [windowSpec_fit _ off (some (k : Int)) o k ho (by simp) (by omega)]
+      · rw [bytesioBody_bad data o k (by omega), windowSpec_bad]
+        rw [ho]; simp; omega
 
-theorem fileWin_eq_partial_aux (data : List Nat) (off len : Option Int) (hne : data ≠ [])
+theorem fileWin_eq_partial_aux (data : List Nat) (off len : Option Int)
     (hoff : 0 ≤ off.getD 0) (hbey : winBeyond (fromBytes data).length off = false ∨ len ≠ some 0) :
     fileWin data off len = windowSpec (fromBytes data) off len := by
-  sorry
+  obtain ⟨o, ho⟩ := Int.eq_ofNat_of_zero_le hoff
+  unfold fileWin
+  simp only [ho]
+  by_cases ho0 : (o : Int) = 0
+  · have ho0' : o = 0 := by omega
+    subst ho0'
+    simp only [Nat.cast_zero, if_true]
+    cases len with
+    | none =>
+      simp only
+      rw [windowSpec_fit _ off none 0 (fromBytes data).length ho (by simp) (by omega)]
+      simp
+    | some l =>
+      simp only
+      by_cases hl : l < 0
+      · rw [if_pos hl, windowSpec_bad]; rw [ho]; simp; omega
+      · rw [if_neg hl]
+        by_cases hl2 : l > ((fromBytes data).length : Int)
+        · rw [if_pos hl2, windowSpec_bad]; rw [ho]; simp; omega
+        · rw [if_neg hl2]
+          obtain ⟨k, rfl⟩ := Int.eq_ofNat_of_zero_le (by omega : 0 ≤ l)
+          rw [windowSpec_fit _ off (some (k : Int)) 0 k ho (by simp) (by omega)]
+          simp
+  · simp only [ho0, if_false]
+    cases len with
+    | none =>
+      simp only
+      by_cases hgt : (o : Int) > ((fromBytes data).length : Int)
+      · rw [if_pos hgt, windowSpec_bad]; rw [ho]; simp; omega
+      · rw [if_neg hgt, pySlice_end _ _ (by omega)]
+        rw [windowSpec_fit _ off none o ((fromBytes data).length - o) ho (by simp; omega) (by omega)]
+        congr 1; symm; apply List.take_of_length_le; simp
+    | some l =>
+      simp only
+      by_cases hl : l < 0
+      · have : ((pySlice (fromBytes data) (some (o : Int)) (some ((o : Int) + l))).length : Int) ≠ l := by
+          have := Int.natCast_nonneg (pySlice (fromBytes data) (some (o : Int)) (some ((o : Int) + l))).length
+          omega
+        rw [if_pos this, windowSpec_bad]; rw [ho]; simp; omega
+      · obtain ⟨k, rfl⟩ := Int.eq_ofNat_of_zero_le (by omega : 0 ≤ l)
+        have hcast : ((o : Int) + (k : Int)) = ((o + k : Nat) : Int) := by push_cast; rfl
+        rw [hcast]
+        by_cases hole : o ≤ (fromBytes data).length
+        · rw [pySlice_ge _ _ _ (by omega) hole]
+          by_cases hfit : o + k ≤ (fromBytes data).length
+          · have hlen : ((((fromBytes data).drop o).take (o + k - o)).length : Int) = (k : Int) := by
+              simp; omega
+            rw [if_neg (by rw [hlen]; simp)]
+            rw [windowSpec_fit _ off (some (k : Int)) o k ho (by simp) (by omega)]
+            congr 2; omega
+          · have hlen : ((((fromBytes data).drop o).take (o + k - o)).length : Int) ≠ (k : Int) := by
+              simp; omega
+            rw [if_pos hlen, windowSpec_bad]; rw [ho]; simp; omega
+        · have hk : k ≠ 0 := by
+            rcases hbey with h | h
+            · exact absurd (winBeyond_false _ off o ho h) hole
+            · intro hk; subst hk; exact h rfl
+          rw [pySlice_beyond _ _ _ (by omega)]
+          rw [if_pos (by simp; omega), windowSpec_bad]; rw [ho]; simp; omega
 
 end BM.C15
